@@ -11,6 +11,18 @@ use std::{
     process::{Command, Stdio},
 };
 
+// "head\n" followed by 2048 characters, as one string literal
+macro_rules! x64 {
+    () => {
+        "0123456789abcdef0123456789abcdef0123456789abcdef0123456789abcdef"
+    };
+}
+macro_rules! long_literal {
+    () => {
+        concat!("head\n", x64!(), x64!(), x64!(), x64!(), x64!(), x64!(), x64!(), x64!(), x64!(), x64!(), x64!(), x64!(), x64!(), x64!(), x64!(), x64!(),
+                x64!(), x64!(), x64!(), x64!(), x64!(), x64!(), x64!(), x64!(), x64!(), x64!(), x64!(), x64!(), x64!(), x64!(), x64!(), x64!())
+    };
+}
 const LEVELS: [log::Level; 5] = [log::Level::Error, log::Level::Warn, log::Level::Info, log::Level::Debug, log::Level::Trace];
 
 /// `console-child <stdout|stderr> <tty_only>`: one appender, one record per level
@@ -21,6 +33,9 @@ pub fn child(args: &[String]) {
     // "aligned": the two highlight groups sit directly next to each other inside a right-aligned group (the buffering
     // writer sees style, text, reset, style, text, reset with nothing in between)
     let aligned = args.get(3).map(|s| s == "aligned").unwrap_or(false);
+    // "long": the message is a literal (no format arguments) with a newline inside and more than a kilobyte after it -
+    // larger than the line buffer of the standard stream
+    let long = args.get(3).map(|s| s == "long").unwrap_or(false);
     let pattern = if aligned {
         "{(<{h({l})}{h({t})}>):>12}|{m}>{n}"
     } else if nonl {
@@ -50,7 +65,11 @@ pub fn child(args: &[String]) {
         )
     };
     for l in LEVELS {
-        let r = a.append(&log::Record::builder().level(l).target("tg").args(format_args!("payload")).build());
+        let r = if long {
+            a.append(&log::Record::builder().level(l).target("tg").args(format_args!(long_literal!())).build())
+        } else {
+            a.append(&log::Record::builder().level(l).target("tg").args(format_args!("payload")).build())
+        };
         if r.is_err() {
             std::process::exit(3);
         }
@@ -108,6 +127,9 @@ fn drain(e: End) -> Vec<u8> {
 }
 
 fn plain_line(l: log::Level, variant: usize) -> String {
+    if variant == 3 {
+        return format!("<{}tg|{}>\n", &l.to_string()[..3], long_literal!());
+    }
     if variant == 2 {
         return format!("{:>12}|payload>\n", format!("<{}tg>", l));
     }
@@ -167,10 +189,10 @@ fn check_row(case: &Value, exe: &str, idx: usize) -> Option<Value> {
     let (err_end, err_fd) = make(r["err_tty"].as_bool().unwrap());
     let mut cmd = Command::new(exe);
     cmd.arg("console-child").arg(r["target"].as_str().unwrap()).arg(r["tty_only"].to_string()).arg(if idx % 2 == 1 { "config" } else { "builder" });
-    let variant = (idx / 2) % 3; // 0: newline at the end, 1: none, 2: highlight groups inside a right-aligned group
+    let variant = (idx / 2) % 4; // 0: newline at the end, 1: none, 2: highlight groups inside a right-aligned group, 3: long literal message
     let nonl = variant;
-    // (idx is row * 6 + variant: every row runs with both constructions and all three patterns)
-    cmd.arg(["nl", "nonl", "aligned"][variant]);
+    // (idx is row * 8 + variant: every row runs with both constructions and all three patterns)
+    cmd.arg(["nl", "nonl", "aligned", "long"][variant]);
     for (var, key) in [("NO_COLOR", "no_color"), ("CLICOLOR", "clicolor"), ("CLICOLOR_FORCE", "force")] {
         match r[key].as_str().unwrap() {
             "unset" => {
@@ -189,9 +211,14 @@ fn check_row(case: &Value, exe: &str, idx: usize) -> Option<Value> {
         Err(e) => return Some(json!({"what": "harness: spawn failed", "error": e.to_string()})),
     };
     drop(cmd); // closes the parent's copies of the slave / write ends
-    let status = ch.wait().unwrap();
-    let out = drain(out_end);
-    let err = drain(err_end);
+    // both streams are read while the child runs: a terminal's buffer holds a few kilobytes only, and a child
+    // blocked on it would never exit
+    let (status, out, err) = std::thread::scope(|s| {
+        let ho = s.spawn(move || drain(out_end));
+        let he = s.spawn(move || drain(err_end));
+        let status = ch.wait().unwrap();
+        (status, ho.join().unwrap(), he.join().unwrap())
+    });
     if !status.success() {
         return Some(json!({"what": "child failed or panicked", "status": status.to_string(), "stderr": String::from_utf8_lossy(&err)}));
     }
@@ -247,7 +274,7 @@ fn check_row(case: &Value, exe: &str, idx: usize) -> Option<Value> {
                 // style, reset, style, reset - each group is closed before the next text
                 let per_line = strip_sgr(line).map(|x| x.1).unwrap_or_default();
                 let shape_ok = per_line.len() == 4 && per_line[1] == "\u{1b}[0m" && per_line[3] == "\u{1b}[0m" && per_line[0] != "\u{1b}[0m" && per_line[2] != "\u{1b}[0m";
-                if !shape_ok || !line.contains(if variant == 2 { "\u{1b}[0m>|payload" } else { "\u{1b}[0m|payload" }) {
+                if !shape_ok || !line.contains(["\u{1b}[0m|payload", "\u{1b}[0m|payload", "\u{1b}[0m>|payload", "\u{1b}[0m|head"][variant]) {
                     return Some(json!({"what": "highlighted group is not followed by a reset", "line": line}));
                 }
             }
@@ -313,7 +340,7 @@ pub fn main(args: &[String]) {
     let rows = read_ndjson(&args[0]);
     let exe = std::env::current_exe().unwrap().to_string_lossy().to_string();
     let res = par_map(&rows, 8, |i, c| {
-        let m = if c["kind"] == "row" { (0..6).find_map(|v| check_row(c, &exe, i * 6 + v)) } else { check_style(c) };
+        let m = if c["kind"] == "row" { (0..8).find_map(|v| check_row(c, &exe, i * 8 + v)) } else { check_style(c) };
         m.into_iter().map(|m| json!({"case": i, "input": c, "mismatch": m})).collect()
     });
     write_ndjson(&args[1], &res);
